@@ -73,7 +73,8 @@ def gen_cqm_ops(rng, nops):
         k = rng.choice(["e.addlin", "e.addlin", "e.setlin", "e.addq", "e.addq", "e.addq", "e.addq", "e.setq", "e.off",
                         "e.remint", "e.remvar", "e.remvars", "e.fix", "e.subst", "e.scale", "e.clear", "e.attr",
                         "e.energy", "e.disjoint", "addcon", "newcon", "newcon", "addcon_qm", "addcon_qm", "setobj",
-                        "addlincon", "remcon", "remcons_if", "remvar", "remvar", "fix", "fix", "fixvars", "subst",
+                        "addlincon", "remcon", "remcons_if", "remvar", "remvar", "fix", "fix", "fixvars", "fixvars", "fixvars_rich",
+                        "fixvars_rich", "block", "subst",
                         "chvt", "bounds", "clear", "copy", "move", "swap", "weak"])
         ke = rng.randint(-1, nc[s] - 1)
 
@@ -96,7 +97,7 @@ def gen_cqm_ops(rng, nops):
             ops.append(["cq.e.remvar", s, ke, rng.choice(labels)])
         elif k == "e.remvars":
             m = rng.randint(0, min(n, 4))
-            vs = [rng.choice(labels) for _ in range(m)] if rng.random() < 0.3 else rng.sample(labels, m)
+            vs = rng.sample(labels, m)     # distinct: utils::remove_by_index requires unique indices
             ops.append(["cq.e.remvars", s, ke, m] + vs)
         elif k == "e.fix":
             ops.append(["cq.e.fix", s, ke, rng.choice(labels), str(rng.choice(SHIFTS))])
@@ -174,6 +175,40 @@ def gen_cqm_ops(rng, nops):
             ops.append(["cq.fix", s, v, str(rng.choice(SHIFTS))])
             del vt[s][v]
             nv[s] -= 1
+        elif k in ("block", "fixvars_rich"):
+            # a densely interacting block over a few labels taken in random (not label) order, where only
+            # some of the variables get a linear bias: the expression's internal order differs from the
+            # label order and variables with a ZERO linear bias have several mutually interacting neighbours
+            m = rng.randint(3, min(5, n)) if n >= 3 else n
+            blk = rng.sample(labels, m)
+            for u in blk:
+                r2 = rng.random()
+                if r2 < 0.35:
+                    ops.append(["cq.e.addlin", s, ke, u, str(small(rng))])
+                elif r2 < 0.45:
+                    ops.append(["cq.e.setlin", s, ke, u, "0"])
+            pairs = [(u, v) for i, u in enumerate(blk) for v in blk[i + 1:]]
+            rng.shuffle(pairs)
+            for u, v in pairs:
+                if rng.random() < 0.75:
+                    ops.append(["cq.e.addq", s, ke] + ([u, v] if rng.random() < 0.5 else [v, u]) + [str(small(rng))])
+            for u in blk:
+                if vtf(u) >= 2 and rng.random() < 0.3:
+                    ops.append(["cq.e.addq", s, ke, u, u, str(small(rng))])
+            for u in blk:
+                if rng.random() < 0.3:
+                    ops.append(["cq.e.addlin", s, ke, u, str(small(rng))])
+            if k == "fixvars_rich":
+                # the copying bulk fix: a NEW model, checked and then edited further
+                m2 = rng.randint(0, min(n - 1, 2))
+                vs = rng.sample(labels, m2)
+                dst = rng.choice([s, o, o])
+                ops.append(["cq.fixvars", s, dst, m2] + vs + [str(rng.choice(SHIFTS)) for _ in range(m2)])
+                nvt = [t for i, t in enumerate(vt[s]) if i not in vs]
+                vt[dst] = nvt
+                nv[dst] = len(nvt)
+                nc[dst] = nc[s]
+                focus = dst if rng.random() < 0.5 else focus
         elif k == "fixvars":
             m = rng.randint(0, min(n, 3))
             vs = rng.sample(labels, m)
@@ -356,7 +391,7 @@ def _cqm_op_valid(op, cqms):
         if sub == "remvar":
             return inr(b[0], nv) and len(b) == 1
         if sub == "remvars":
-            return inr(b[0], 8) and len(b) == 1 + b[0] and all(inr(v, nv) for v in b[1:])
+            return inr(b[0], 8) and len(b) == 1 + b[0] and all(inr(v, nv) for v in b[1:]) and len(set(b[1:])) == len(b[1:])
         if sub == "fix":
             return inr(b[0], nv) and len(b) == 2
         if sub == "subst":
